@@ -7,9 +7,9 @@ From NV Require Import Rec.Lang Rec.Spec Rec.Mech Rec.MechInv.
 
 (* let s0 = {a | default = 1, b = a + 1} in let s1 = {a = 5} in let s2 = s0 & s1 in ... *)
 Definition h_override : history :=
-  [ SLit [(0%N, {| fprio := PBot; fbody := Some (Num 1) ; fdyn := false |});
-          (1%N, {| fprio := PNeut; fbody := Some (Add (Var 0%N) (Num 1)) ; fdyn := false |})];
-    SLit [(0%N, {| fprio := PNeut; fbody := Some (Num 5) ; fdyn := false |})];
+  [ SLit [(0%N, {| fprio := PBot; fbody := Some (Num 1) ; fdyn := false; fctrs := [] |});
+          (1%N, {| fprio := PNeut; fbody := Some (Add (Var 0%N) (Num 1)) ; fdyn := false; fctrs := [] |})];
+    SLit [(0%N, {| fprio := PNeut; fbody := Some (Num 5) ; fdyn := false; fctrs := [] |})];
     SMerge 0 1 ].
 
 (* what the specification says about that history: s0.b = 2, s2.b = 6 *)
@@ -78,8 +78,8 @@ Definition cfg_incomplete : cfg :=
 
 (* { a = 1, b = if 1 <= 0 then 0 else a } : b gets a standard thunk, a is unbound in it *)
 Definition h_incomplete : history :=
-  [ SLit [(0%N, {| fprio := PNeut; fbody := Some (Num 1) ; fdyn := false |});
-          (1%N, {| fprio := PNeut; fbody := Some (IfLe (Num 1) (Num 0) (Num 0) (Var 0%N)) ; fdyn := false |})] ].
+  [ SLit [(0%N, {| fprio := PNeut; fbody := Some (Num 1) ; fdyn := false; fctrs := [] |});
+          (1%N, {| fprio := PNeut; fbody := Some (IfLe (Num 1) (Num 0) (Num 0) (Var 0%N)) ; fdyn := false; fctrs := [] |})] ].
 
 Theorem deps_incomplete_refuted :
   exists h i k, field_of cfg_incomplete h i k = Err UnboundId /\ spec_field_of h i k = Ok 1.
@@ -89,10 +89,10 @@ Proof. exists h_incomplete, 0, 1%N. split; vm_compute; reflexivity. Qed.
    another dependency, but the filter of init_cached leaves the missed one out.
    { a = 1, c = 0, b = if c <= 0 then c else a } *)
 Definition h_incomplete2 : history :=
-  [ SLit [(0%N, {| fprio := PNeut; fbody := Some (Num 1) ; fdyn := false |});
-          (2%N, {| fprio := PBot; fbody := Some (Num 0) ; fdyn := false |});
-          (1%N, {| fprio := PNeut; fbody := Some (IfLe (Var 2%N) (Num 0) (Var 2%N) (Var 0%N)) ; fdyn := false |})];
-    SLit [(2%N, {| fprio := PNeut; fbody := Some (Num 7) ; fdyn := false |})];
+  [ SLit [(0%N, {| fprio := PNeut; fbody := Some (Num 1) ; fdyn := false; fctrs := [] |});
+          (2%N, {| fprio := PBot; fbody := Some (Num 0) ; fdyn := false; fctrs := [] |});
+          (1%N, {| fprio := PNeut; fbody := Some (IfLe (Var 2%N) (Num 0) (Var 2%N) (Var 0%N)) ; fdyn := false; fctrs := [] |})];
+    SLit [(2%N, {| fprio := PNeut; fbody := Some (Num 7) ; fdyn := false; fctrs := [] |})];
     SMerge 0 1 ].
 
 Theorem deps_incomplete_after_override_refuted :
@@ -110,9 +110,9 @@ Proof. repeat split; vm_compute; reflexivity. Qed.
    which merge does not revert.   let n = "y" in {b | default = 10, "%{n}" = b + 1} & {b = 5}
    (b = 0, y = 1): y = 11 in the merge result instead of 6; the real interpreter prints 11 too *)
 Definition h_dynamic : history :=
-  [ SLit [(0%N, {| fprio := PBot; fbody := Some (Num 10); fdyn := false |});
-          (1%N, {| fprio := PNeut; fbody := Some (Add (Var 0%N) (Num 1)); fdyn := true |})];
-    SLit [(0%N, {| fprio := PNeut; fbody := Some (Num 5); fdyn := false |})];
+  [ SLit [(0%N, {| fprio := PBot; fbody := Some (Num 10); fdyn := false; fctrs := [] |});
+          (1%N, {| fprio := PNeut; fbody := Some (Add (Var 0%N) (Num 1)); fdyn := true; fctrs := [] |})];
+    SLit [(0%N, {| fprio := PNeut; fbody := Some (Num 5); fdyn := false; fctrs := [] |})];
     SMerge 0 1 ].
 
 Theorem dynamic_field_indirection_refuted :
@@ -124,3 +124,17 @@ Proof.
   - intros l [H|[H|[H|[]]]]; inversion H; subst; cbn; repeat constructor; cbn; intuition discriminate.
   - repeat split; vm_compute; reflexivity.
 Qed.
+
+(* ---- contracts that depend on fields are recomputed as well (faithful configuration):
+   { lo | default = 0, x | from_predicate (fun v => v >= lo) = 3 } & { lo = 5 }
+   x = 3 in the operand, a contract violation in the merge result *)
+Definition h_contract : history :=
+  [ SLit [(0%N, {| fprio := PBot; fbody := Some (Num 0); fdyn := false; fctrs := [] |});
+          (1%N, {| fprio := PNeut; fbody := Some (Num 3); fdyn := false; fctrs := [(CGe, Var 0%N)] |})];
+    SLit [(0%N, {| fprio := PNeut; fbody := Some (Num 5); fdyn := false; fctrs := [] |})];
+    SMerge 0 1 ].
+
+Example contract_on_field_recomputed :
+  field_of cfg_fixed h_contract 0 1%N = Ok 3 /\ spec_field_of h_contract 0 1%N = Ok 3 /\
+  field_of cfg_fixed h_contract 2 1%N = Err Blame /\ spec_field_of h_contract 2 1%N = Err Blame.
+Proof. repeat split; vm_compute; reflexivity. Qed.
